@@ -297,6 +297,7 @@ struct ReadOutcome<T> {
     log: u64,
     opened: Vec<(SmallPath, Vec<Deliver>)>,
     trace: Option<Vec<(RStep, u8)>>,
+    runaway: bool,
 }
 
 /// A value of `T` unrelated to the one under test (the old contents of reused storage).
@@ -338,6 +339,7 @@ fn read_once<T: Subject>(medium: Medium, root: &Node, rfaults: &[RFault], trace:
         log: st.log.finish(),
         opened: st.opened,
         trace: st.trace,
+        runaway: st.runaway,
     }
 }
 
@@ -350,6 +352,7 @@ struct WriteOutcome {
     steps: u32,
     log: u64,
     trace: Option<Vec<(WStep, u8)>>,
+    runaway: bool,
 }
 
 fn write_once<T: Subject>(medium: Medium, v: &T, wfaults: &[WFault], trace: bool) -> WriteOutcome {
@@ -370,6 +373,7 @@ fn write_once<T: Subject>(medium: Medium, v: &T, wfaults: &[WFault], trace: bool
         steps: store.steps(),
         log: store.log.finish(),
         trace: store.trace.take(),
+        runaway: store.runaway,
         fired: std::mem::take(&mut store.fired),
         root: store.root.take(),
     }
@@ -627,6 +631,11 @@ pub fn run_plan<T: Subject>(plan: &Plan, opts: RunOpts) -> Outcome {
     log.u64(w.log);
     log.u64(w.result.is_ok() as u64);
     let wfaulted = !w.fired.is_empty();
+    if w.runaway {
+        // bounded liveness: whatever the medium does, serialize has to come back
+        eval!("AR");
+        fail!("AR", "serialize did not return within {} steps although every step was failing", w.steps);
+    }
 
     let mut leaf_paths: Vec<SmallPath> = Vec::with_capacity(m.len());
     let mut stored: Option<Node> = None;
@@ -738,6 +747,10 @@ pub fn run_plan<T: Subject>(plan: &Plan, opts: RunOpts) -> Outcome {
     if let Some(root) = stored.as_ref() {
         let r: ReadOutcome<T> = read_once(medium, root, &plan.rfaults, opts.trace, plan.in_place);
         out.rsteps += r.steps;
+        if r.runaway {
+            eval!("AR");
+            fail!("AR", "deserialize did not return within {} steps although every step was failing", r.steps);
+        }
         out.rfired = r.fired.clone();
         out.applied = r.applied.clone();
         out.read_ok = Some(r.result.is_ok());
